@@ -158,7 +158,7 @@ func (c *ConfSpec) Leaves() []string {
 func (q *QSpec) toConf() configs.QueueConfig {
 	qc := configs.QueueConfig{
 		Name:            q.Name,
-		Parent:          q.Parent,
+		Parent:          q.Parent || len(q.Children) > 0,
 		MaxApplications: q.MaxApps,
 		Properties:      q.Props,
 		AdminACL:        q.AdminACL,
@@ -338,7 +338,9 @@ func genProps(r *Rng, pf Profile, leaf bool) map[string]string {
 	return p
 }
 
-func genLimits(r *Rng, pf Profile, qmax Res, qmaxApps uint64) []LimitSpec {
+// genLimits generates limits for one queue. inherited holds, per "u:<name>" / "g:<name>" (wildcard "*"
+// included), the limit in force on the closest ancestor: a limit may only be tighter than that.
+func genLimits(r *Rng, pf Profile, qmax Res, qmaxApps uint64, inherited map[string]LimitSpec) []LimitSpec {
 	var out []LimitSpec
 	n := r.Range(1, 3)
 	usedU := map[string]bool{}
@@ -346,6 +348,7 @@ func genLimits(r *Rng, pf Profile, qmax Res, qmaxApps uint64) []LimitSpec {
 	wildU, wildG := false, false
 	for i := 0; i < n; i++ {
 		l := LimitSpec{}
+		key := ""
 		// named users / groups first, a wildcard only last
 		switch r.Intn(4) {
 		case 0:
@@ -355,6 +358,7 @@ func genLimits(r *Rng, pf Profile, qmax Res, qmaxApps uint64) []LimitSpec {
 			}
 			usedU[u] = true
 			l.Users = []string{u}
+			key = "u:" + u
 		case 1:
 			g := pick(r, allGroups)
 			if usedG[g] || wildG {
@@ -362,12 +366,14 @@ func genLimits(r *Rng, pf Profile, qmax Res, qmaxApps uint64) []LimitSpec {
 			}
 			usedG[g] = true
 			l.Groups = []string{g}
+			key = "g:" + g
 		case 2:
 			if wildU {
 				continue
 			}
 			wildU = true
 			l.Users = []string{"*"}
+			key = "u:*"
 		case 3:
 			// a wildcard group limit is only allowed after a named group limit
 			if wildG || len(usedG) == 0 {
@@ -375,16 +381,30 @@ func genLimits(r *Rng, pf Profile, qmax Res, qmaxApps uint64) []LimitSpec {
 			}
 			wildG = true
 			l.Groups = []string{"*"}
+			key = "g:*"
+		}
+		bound, hasBound := inherited[key]
+		if !hasBound {
+			bound, hasBound = inherited[key[:2]+"*"]
 		}
 		if r.Bool(0.8) {
 			l.MaxRes = genRes(r, 1, 8, 0.7)
 			if len(l.MaxRes) == 0 {
 				l.MaxRes = Res{"vcore": int64(r.Range(1, 8))}
 			}
-			// stay within the queue maximum
-			for k, v := range l.MaxRes {
+			// stay within the queue maximum and within the ancestor's limit for the same user / wildcard
+			for _, k := range sortedKeys(l.MaxRes) {
+				v := l.MaxRes[k]
 				if m, ok := qmax[k]; ok && v > m {
 					l.MaxRes[k] = m
+				}
+				if hasBound && bound.MaxRes != nil {
+					if m, ok := bound.MaxRes[k]; !ok {
+						delete(l.MaxRes, k)
+						continue
+					} else if l.MaxRes[k] > m {
+						l.MaxRes[k] = m
+					}
 				}
 				if l.MaxRes[k] <= 0 {
 					delete(l.MaxRes, k)
@@ -394,13 +414,32 @@ func genLimits(r *Rng, pf Profile, qmax Res, qmaxApps uint64) []LimitSpec {
 				l.MaxRes = nil
 			}
 		}
-		if l.MaxRes == nil || r.Bool(0.4) {
+		if l.MaxRes == nil || r.Bool(0.4) || (hasBound && bound.MaxApps != 0) {
 			l.MaxApps = uint64(r.Range(1, 3))
 			if qmaxApps != 0 && l.MaxApps > qmaxApps {
 				l.MaxApps = qmaxApps
 			}
+			if hasBound && bound.MaxApps != 0 && l.MaxApps > bound.MaxApps {
+				l.MaxApps = bound.MaxApps
+			}
 		}
 		out = append(out, l)
+	}
+	return out
+}
+
+func mergeInherited(inh map[string]LimitSpec, limits []LimitSpec) map[string]LimitSpec {
+	out := map[string]LimitSpec{}
+	for k, v := range inh {
+		out[k] = v
+	}
+	for _, l := range limits {
+		for _, u := range l.Users {
+			out["u:"+u] = l
+		}
+		for _, g := range l.Groups {
+			out["g:"+g] = l
+		}
 	}
 	return out
 }
@@ -415,9 +454,9 @@ func genConf(r *Rng, pf Profile, total Res) *ConfSpec {
 	if r.Bool(pf.MaxApps / 2) {
 		root.MaxApps = uint64(r.Range(3, 8))
 	}
-	var build func(parent *QSpec, parentMax Res, depth int)
+	var build func(parent *QSpec, parentMax Res, depth int, inh map[string]LimitSpec)
 	names := []string{"a", "b", "c", "d"}
-	build = func(parent *QSpec, parentMax Res, depth int) {
+	build = func(parent *QSpec, parentMax Res, depth int, inh map[string]LimitSpec) {
 		nch := r.Range(1, 3)
 		if depth == 0 {
 			nch = r.Range(2, 3)
@@ -453,8 +492,9 @@ func genConf(r *Rng, pf Profile, total Res) *ConfSpec {
 				effMax[k] = v
 			}
 			if r.Bool(pf.Limits) {
-				q.Limits = genLimits(r, pf, effMax, q.MaxApps)
+				q.Limits = genLimits(r, pf, effMax, q.MaxApps, inh)
 			}
+			childInh := mergeInherited(inh, q.Limits)
 			parent.Children = append(parent.Children, q)
 			if !leaf {
 				if r.Bool(pf.Templates) {
@@ -480,12 +520,17 @@ func genConf(r *Rng, pf Profile, total Res) *ConfSpec {
 					// a parent with no static children: only dynamic ones
 					q.Parent = true
 				} else {
-					build(q, effMax, depth+1)
+					build(q, effMax, depth+1, childInh)
 				}
 			}
 		}
 	}
-	build(root, nil, 0)
+	var rootInh map[string]LimitSpec
+	if r.Bool(pf.Limits / 2) {
+		root.Limits = genLimits(r, pf, nil, root.MaxApps, nil)
+		rootInh = mergeInherited(nil, root.Limits)
+	}
+	build(root, nil, 0, rootInh)
 	hasLeaf := false
 	root.walk("", func(_ string, q *QSpec, _ *QSpec) {
 		if q.IsLeaf() && q != root {
@@ -592,6 +637,9 @@ func genRules(r *Rng, c *ConfSpec) []RuleSpec {
 	var rules []RuleSpec
 	n := r.Range(1, 3)
 	leaves := c.Leaves()
+	if len(leaves) == 0 {
+		return nil
+	}
 	var parents []string
 	c.Root.walk("", func(p string, q *QSpec, _ *QSpec) {
 		if !q.IsLeaf() && p != "root" {
